@@ -1304,7 +1304,7 @@ def concurrent_round(texts, reps=1, switch=1e-6):
     return out
 
 
-def concurrent_stream(pool, rng, rounds, nthreads):
+def concurrent_stream(pool, rng, rounds, nthreads, switch=1e-6, known=None):
     """parse(text) is a function of the text, whatever else the process is parsing: `rounds` bursts of `nthreads` threads
     parsing DIFFERENT texts at the same time; every result (type-tagged tree, or the rejection) is compared with the
     serial parse of the same text in this process.  -> (coverage, violations)"""
@@ -1317,15 +1317,16 @@ def concurrent_stream(pool, rng, rounds, nthreads):
         texts = rng.sample(pool, nthreads) if len(pool) >= nthreads else [rng.choice(pool) for _ in range(nthreads)]
         for t in texts:
             if t not in serial:
-                serial[t] = run_impl(t)
-                # serial parses are repeatable in the first place
-                again = run_impl(t)
+                # the serial parse: the one the printed / mutated stream made of this text in a worker process of its own, or
+                # (every 4th text, and texts not seen by those streams) one made here, before any thread exists
+                again = run_impl(t) if (known is None or t not in known or len(serial) % 4 == 0) else known[t]
+                serial[t] = known[t] if known is not None and t in known else again
                 if again != serial[t] and len(seen) < 3:
                     seen.add('serial:' + t)
                     violations.append(core.Violation('parse-not-a-function-of-text', f'two serial parses of {t!r} differ: {brief(serial[t])} / {brief(again)}',
                                                      {'concurrent': True, 'texts': [t], 'reps': 2}, signature='serial-repeat:' + t))
             lens_.append(len(t))
-        got = concurrent_round(texts)[0]
+        got = concurrent_round(texts, switch=switch)[0]
         for t, g in zip(texts, got):
             calls += 1
             k = serial[t][0] if serial[t][0] == 'ok' else 'rejected'
@@ -1343,7 +1344,7 @@ def concurrent_stream(pool, rng, rounds, nthreads):
                         {'concurrent': True, 'texts': texts, 'text': t, 'got': g, 'serial': serial[t], 'reps': 25}, signature=sig))
     cov = {'concurrent_rounds': rounds, 'concurrent_threads': nthreads, 'concurrent_calls': calls, 'concurrent_distinct_texts': len(serial),
            'concurrent_wrong_results': wrong, 'concurrent_serial_outcomes': kinds_, 'concurrent_text_length_histogram': lens(lens_),
-           'concurrent_switch_interval': 1e-6}
+           'concurrent_switch_interval': switch}
     return cov, violations
 
 
@@ -1444,11 +1445,18 @@ def run(tier, rng):
                           'model accepts' if m else 'model rejects'))
     peg_cov, peg_viol = peg_stream(texts, muts, rng, quick)
     violations.extend(peg_viol)
-    # concurrent stream (fix-D): long printed statements + some rejected mutants, several threads inside parse() at once
-    cpool = sorted({t for t in texts if len(t) >= 120} | {t for t in muts[len(CORPUS):] if len(t) >= 120 and rng.random() < 0.25})
+    # concurrent stream (fix-D): long printed statements + some mutants, several threads inside parse() at once
+    known = {text: ri for text, (ri, rf) in zip(muts, both)}
+    known.update({t: ['ok', exp] for t, (label, st, exp, canon) in zip(texts, meta)})
+    bad_texts = {f[3] for f in fails if f[3] is not None}
+    cpool = sorted(t for t in set(texts) | set(muts[len(CORPUS)::3]) if 80 <= len(t) <= 260 and t not in bad_texts)
     if len(cpool) < 8:
-        cpool = sorted(set(texts))
-    conc_cov, conc_viol = concurrent_stream(cpool, rng, 60 if quick else 600, 4)
+        cpool = sorted(set(texts) - bad_texts)
+    import time as _time
+    _t0 = _time.time()
+    conc_cov, conc_viol = concurrent_stream(cpool, rng, 12 if quick else 300, 4, known=known)
+    conc_cov['concurrent_stream_seconds'] = round(_time.time() - _t0, 1)
+    core.log(f'[C06] concurrent stream: {conc_cov["concurrent_stream_seconds"]}s')
     violations.extend(conc_viol)
     classes = {}
     for t, a, b in infid:
